@@ -203,7 +203,33 @@ func verifStubNewProxyConfigurerByType(proxyType ProxyType) ProxyConfigurer {
 	return nil
 }
 
-// GetBaseConfig hands out the embedded base configuration and touches nothing.
+// VerifBaseOf: the base configuration embedded in a proxy configuration.
+//
+//verif:pure
+func VerifBaseOf(c ProxyConfigurer) *ProxyBaseConfig {
+	switch v := c.(type) {
+	case *TCPProxyConfig:
+		return &v.ProxyBaseConfig
+	case *UDPProxyConfig:
+		return &v.ProxyBaseConfig
+	case *HTTPProxyConfig:
+		return &v.ProxyBaseConfig
+	case *HTTPSProxyConfig:
+		return &v.ProxyBaseConfig
+	case *TCPMuxProxyConfig:
+		return &v.ProxyBaseConfig
+	case *STCPProxyConfig:
+		return &v.ProxyBaseConfig
+	case *XTCPProxyConfig:
+		return &v.ProxyBaseConfig
+	case *SUDPProxyConfig:
+		return &v.ProxyBaseConfig
+	}
+	return nil
+}
+
+// GetBaseConfig hands out the embedded base configuration - the same object on
+// every call - and touches nothing.
 //
 //verif:contract (~/pkg/config/v1.ProxyConfigurer).GetBaseConfig
 //verif:impls *~/pkg/config/v1.TCPProxyConfig *~/pkg/config/v1.UDPProxyConfig *~/pkg/config/v1.HTTPProxyConfig *~/pkg/config/v1.HTTPSProxyConfig *~/pkg/config/v1.TCPMuxProxyConfig *~/pkg/config/v1.STCPProxyConfig *~/pkg/config/v1.XTCPProxyConfig *~/pkg/config/v1.SUDPProxyConfig
@@ -211,9 +237,9 @@ func verifStubNewProxyConfigurerByType(proxyType ProxyType) ProxyConfigurer {
 //verif:modifies
 //verif:inline-known
 func verif_ProxyConfigurer_GetBaseConfig(c ProxyConfigurer) {
-	verif.Requires(c != nil, "configuration_present")
 	b := c.GetBaseConfig()
 	verif.Ensures(b != nil, "base_present")
+	verif.Ensures(b == VerifBaseOf(c), "the_embedded_base")
 }
 
 //verif:det-fn reflect.TypeOf
